@@ -12,7 +12,7 @@ RULE = (
     "configurations incl. small max_count and num_reserved in {0,1,3,15}; heavy hitters width 1..4 depth 1..3 max_key_len in {2,4,16}; "
     "HyperLogLog p in {7,9,12} with any uint64 seed): three sketches of equal configuration are pre-loaded with a common random history, log "
     "types get an identical planted batch of 2048 PRNG draws, then sketch A receives one compound call (update(list), update(dict) with "
-    "multiplicities 1..10^4 (log: 1..300), add(key,v), add_ngram(key,n) with n in 1..len+2, update_ngram(list,n)), sketch B the loop of "
+    "multiplicities 1..10^4 (log: 1..300), add(key,v), add_ngram(key,n) with n in 1..len+2 (keys up to 40 bytes, occasionally 250..300 bytes), update_ngram(list,n)), sketch B the loop of "
     "per-item calls (add(key) / add(key,value) / add_ngram per element) and sketch C the loop of single unit adds (one add per window / per unit of "
     "multiplicity). Oracle: full public state of A, B and C identical (tables, n_added_records, rand_ptr for log types), still identical after a "
     "common continuation of 6 further adds that keeps consuming each sketch's own draw batch; sketch[key]==query(key) for count-min. "
@@ -63,10 +63,10 @@ def cases(draw):
         op["k"] = draw(key)
         op["v"] = draw(val)
     elif kind == "add_ngram":
-        op["k"] = draw(st.one_of(key, vs.biased_bytes(0, 40)))
-        op["n"] = draw(st.integers(1, len(op["k"]) + 2))
+        op["k"] = draw(st.one_of(key, vs.biased_bytes(0, 40), vs.biased_bytes(0, 40), st.binary(min_size=250, max_size=300)))
+        op["n"] = draw(st.integers(1, len(op["k"]) + 2)) if len(op["k"]) < 100 else draw(st.sampled_from([1, 2, 5, 200, 255, 256, len(op["k"]) - 1, len(op["k"])]))
     else:
-        op["keys"] = draw(st.lists(st.one_of(key, vs.biased_bytes(0, 24)), min_size=0, max_size=4))
+        op["keys"] = draw(st.lists(st.one_of(key, vs.biased_bytes(0, 24), vs.biased_bytes(0, 24), st.binary(min_size=254, max_size=260)), min_size=0, max_size=4))
         op["n"] = draw(st.integers(1, 9))
     cont = draw(st.lists(st.tuples(key, st.integers(1, 30)), min_size=6, max_size=6))
     return {"cfg": cfg, "pre": pre, "op": op, "cont": cont, "rs": draw(st.integers(0, 2**32 - 1))}
